@@ -54,3 +54,31 @@ func VerifC16_type3_client_keeps_request() {
 	}
 	vReach("finalized")
 }
+
+// C16 (request objects): see the type-1 harness of the same name
+func VerifC16_type3_request_encoding_survives_reuse() {
+	vUnwind(6)
+	mk := func(tag string) *RateLimitedTokenRequest {
+		return &RateLimitedTokenRequest{
+			RequestKey:            vBytes("rk"+tag, 49, 49),
+			NameKeyID:             vBytes("nk"+tag, 32, 32),
+			EncryptedTokenRequest: vBytesC("ct"+tag, 1, 3),
+			Signature:             vBytes("sig"+tag, 96, 96),
+		}
+	}
+	r := mk("1")
+	first := r.Marshal()
+	snap := append([]byte{}, first...)
+	wire := append([]byte{}, mk("2").Marshal()...)
+	wireSnap := append([]byte{}, wire...)
+	vAssert(r.Unmarshal(wire), "decodes-into-used-object")
+	second := r.Marshal()
+	vAssert(vBytesEq(first, snap), "earlier-encoding-unchanged")
+	vAssert(vBytesEq(wire, wireSnap), "input-unchanged")
+	vAssert(vBytesEq(second, wireSnap), "re-encodes-the-new-value")
+	wire[0] ^= 0x01
+	wire[len(wire)-1] ^= 0x5a
+	vAssert(vBytesEq(r.Marshal(), wireSnap), "encoding-independent-of-input-buffer")
+	vAssert(vBytesEq(first, snap), "earlier-encoding-still-unchanged")
+	vReach("reused")
+}
